@@ -1,6 +1,8 @@
 package engine
 
 import (
+	"fmt"
+	"reflect"
 	"go/token"
 	"go/types"
 	"strings"
@@ -79,6 +81,34 @@ func (fr *frame) externalModel(name string, cc *ssa.CallCommon, args []T, st *St
 				fr.safety(st, "nil-deref", "json.Unmarshal into nil pointer", Not(Eq(p, Nil)), pos)
 				et := pt.Elem()
 				nv := c.freshOfType(st, et, "json")
+				if stt, ok := under(et).(*types.Struct); ok {
+					// struct model: every exported member takes the value of the wire
+					// member named by its json tag (uninterpreted function of the
+					// input bytes and the member name); other fields keep their value
+					si := c.R.structOf(et)
+					cur := c.load(st, p, et)
+					var fargs []T
+					for i := 0; i < stt.NumFields(); i++ {
+						f := stt.Field(i)
+						name := f.Name()
+						if tag := reflect.StructTag(stt.Tag(i)).Get("json"); tag != "" {
+							if j := strings.Index(tag, ","); j >= 0 {
+								tag = tag[:j]
+							}
+							if tag != "" {
+								name = tag
+							}
+						}
+						if !f.Exported() || name == "-" {
+							fargs = append(fargs, app(si.Fields[i].Sort, fmt.Sprintf("%s_f%d", si.Name, i), cur))
+							continue
+						}
+						fargs = append(fargs, c.jsonField(args[0], name, f.Type(), st))
+					}
+					if len(fargs) > 0 {
+						nv = c.name("json", app(si.Name, "mk_"+si.Name, fargs...))
+					}
+				}
 				c.store(st, p, et, nv)
 				e := c.fresh("json_err", "Iface")
 				if c.R.SortOf(et) == "Iface" && c.Opt.JSONShape {
@@ -329,4 +359,17 @@ func (c *Ctx) fnMayReach(fn *ssa.Function, target string, seen map[*ssa.Function
 
 func methodInRepo(m *types.Func) bool {
 	return m != nil && m.Pkg() != nil && strings.HasPrefix(m.Pkg().Path(), ModPath)
+}
+
+// jsonField is the value encoding/json gives a struct member named name when
+// decoding data (uninterpreted; one function per member sort).
+func (c *Ctx) jsonField(data T, name string, t types.Type, st *State) T {
+	sortS := c.R.SortOf(t)
+	fn := "jsonfield_" + sortID(sortS)
+	c.R.UFun(fn, fmt.Sprintf("(declare-fun %s (Slice Str) %s)", fn, sortS))
+	v := app(sortS, fn, data, c.R.StrLit(name))
+	if st != nil {
+		c.assumeValid(st, v, t)
+	}
+	return v
 }
